@@ -94,10 +94,17 @@ def build_traces(path, tier, seed):
             x = x * sc
             tol = tol * sc
         arg = x if tid % 4 else x.tolist()
-        if rng.integers(8) == 0:
-            # counts in a narrow integer dtype whose products leave the dtype (int8 up to 120, int16 up to 30000, int32 up to 2e9)
-            dt_, top = [(np.int8, 120), (np.int16, 30000), (np.int32, 2.0e9)][int(rng.integers(3))]
-            arg = np.round(x / (np.max(np.abs(x)) + 1e-300) * top).astype(dt_)
+        narrow = (tid - nrec - 1) if nrec < tid <= nrec + 10 else (-1 if rng.integers(8) else int(rng.integers(5)))
+        if narrow >= 0:
+            # counts in a narrow integer dtype whose products leave the dtype (int8 up to 120, int16 up to 30000, int32 up to 2e9), and
+            # small values in half / single precision whose products underflow in that precision; the first ten short series of
+            # every run are of this kind (every run sees each type)
+            dt_, top = [(np.int8, 120), (np.int16, 30000), (np.int32, 2.0e9), (np.float16, 2.0e-4), (np.float32, 3.0e-23)][narrow % 5]
+            if n < 4:
+                n = int(rng.integers(4, 40))
+                x = rand_series(rng, n)
+            xs_ = x / (np.max(np.abs(x)) + 1e-300) * top
+            arg = (np.round(xs_) if np.dtype(dt_).kind == "i" else xs_).astype(dt_)
             x = np.asarray(arg, dtype=float)
             tol = float(rng.choice([0.3, 1.0, 2.0])) * top / 4.0
         import eqsig
